@@ -329,19 +329,32 @@ def run_exchange(ctx, case):
 
 
 # ---------------------------------------------------------------- generators
+def _directed_job(args):
+    seed, i, kind, code = args
+    return directed(kind, rng(seed, f"c02ex/{i}"), code.encode())
+
+
 def gen_exchanges(tier, seed):
     r = rng(seed, "c02ex")
     kinds_quick = ["A0", "B0", "S0", "K0", "M2-0", "salt-zero"]
     kinds_all = ["A0", "B0", "S0", "K0", "M1-0", "M2-0", "u0", "x0", "salt-zero", "salt-leading-zero", "a-small", "a-max",
                  "plain", "plain", "plain", "plain"]
     kinds = kinds_quick if tier == "quick" else [kinds_all[i % len(kinds_all)] for i in range(96)]
-    cases = []
     codes = ["123-45-678", "111-22-333", "031-45-154", "000-00-000", "999-99-999"]
+    todo = []
     for i, kind in enumerate(kinds):
         code = r.choice(codes) if i else "123-45-678"
         if tier != "quick" and i % 31 == 30:
             code = "päss-中"        # non-ASCII setup code: UTF-8 bytes
-        salt, a, b, hit = directed(kind, r, code.encode())
+        todo.append((seed, i, kind, code))
+    # the directed searches are independent: spread them over processes
+    try:
+        with concurrent.futures.ProcessPoolExecutor(min(8, len(todo))) as ex:
+            found = list(ex.map(_directed_job, todo))
+    except Exception:  # noqa  (no fork / pickling trouble: do it inline)
+        found = [_directed_job(t) for t in todo]
+    cases = []
+    for (_, i, kind, code), (salt, a, b, hit) in zip(todo, found):
         if kind == "A0" and i % 2 == 0 and tier == "quick":
             salt = bytes(3) + salt[3:]     # leading-zero salt together with a leading-zero A
         cases.append(dict(id=f"{i}", kind=kind, code=code, server_code=code, salt=salt.hex(), a=a, b=b, hit=hit))
